@@ -51,9 +51,12 @@ package rsm
 //@ func (m *membership) isDeleteOnlyNode [C07]
 //@ ensures result == (cc.Type == pb.RemoveNode && len(m.members.Addresses) == 1 && cc.ReplicaID in m.members.Addresses)
 
+// gMemberDecisions: number of config changes the membership object has been asked to decide
+//@ ghost var gMemberDecisions int
 //@ func (m *membership) handleConfigChange [C07]
 //@ requires m.wfm() && m.disjoint()
-//@ modifies m.members.ConfigChangeId, entries(m.members.Addresses), entries(m.members.NonVotings), entries(m.members.Witnesses), entries(m.members.Removed)
+//@ modifies m.members.ConfigChangeId, entries(m.members.Addresses), entries(m.members.NonVotings), entries(m.members.Witnesses), entries(m.members.Removed), gMemberDecisions
+//@ ghostset gMemberDecisions := old(gMemberDecisions) + 1
 //@ ensures m.wfm() && m.disjoint()
 //@ ensures result && isAdd(cc.Type) ==> !old(cc.ReplicaID in m.members.Removed)
 //@ ensures forall k uint64 :: old(k in m.members.Removed) ==> k in m.members.Removed
@@ -555,9 +558,24 @@ package rsm
 //@ modifies rec.sessions.gsess
 //@ ensures rec.sessions.gsess[key] != nil && fresh(rec.sessions.gsess[key])
 //@ ensures forall k uint64 :: k != key ==> rec.sessions.gsess[k] == old(rec.sessions.gsess[k]) || rec.sessions.gsess[k] == nil
-//@ func (s *Session) recoverFromSnapshot [C05]
-//@ trusted decodes one session (encoding/json or the v1 binary layout)
+// ... and restoring a session from its (V2) image sets the client id and the acknowledged watermark to
+// the image's: gDecResp / gDecClient are the values json.Unmarshal decoded from the image (an
+// uninterpreted function of the image bytes)
+//@ ghost var gDecResp int
+//@ ghost var gDecClient int
+//@ extern encoding/json Unmarshal
+//@ modifies pointee(v), gDecResp, gDecClient
+//@ ghostset gDecResp := uf("imgresp", ptr(data))
+//@ ghostset gDecClient := uf("imgclient", ptr(data))
+//@ ensures typeof(v) == typeid(*Session) && result == nil ==> as(*Session, v).RespondedUpTo == uf("imgresp", ptr(data)) && as(*Session, v).ClientID == uf("imgclient", ptr(data))
+//@ func (s *Session) recoverFromV1Snapshot [C05]
+//@ trusted the pre-v3.2 image layout (results are plain integers)
 //@ modifies *s
+//@ func (s *Session) recoverFromSnapshot [C05 C08]
+//@ noframe
+//@ nobounds
+//@ modifies *s, gDecResp, gDecClient
+//@ ensures result == nil && v == V2 ==> s.RespondedUpTo == gDecResp && s.ClientID == gDecClient
 //@ extern io ReadFull
 
 //@ func (rec *lrusession) load [C05 C08]
@@ -602,9 +620,16 @@ package rsm
 //@ loop 1 invariant !gBlockBad
 
 // the stream validator accepts only if every complete block it has seen matched its checksum
+// the tail of a stream: 8 bytes little-endian "bytes before the tail", then the 8-byte magic number.
+// tailOK: the magic number matches and the recorded size is EXACTLY the number of bytes received
+// before the tail (a smaller recorded size would let a stream with a repeated block through)
+//@ pure le64(b []byte, o int) := b[o] + b[o + 1] * 256 + b[o + 2] * 65536 + b[o + 3] * 16777216 + b[o + 4] * 4294967296 + b[o + 5] * 1099511627776 + b[o + 6] * 281474976710656 + b[o + 7] * 72057594037927936
+//@ pred tailOK(tail []byte, total int) := ufb("byteseq", ptr(tail) + 8, 8, ptr(writerMagicNumber), len(writerMagicNumber)) && le64(tail, 0) == total - tailSize
+//@ extern bytes Equal
+//@ ensures result == ufb("byteseq", ptr(a), len(a), ptr(b), len(b))
 //@ func (v *v2validator) validateMagicSize [C14]
-//@ trusted compares the magic number and the recorded payload size of the tail
-//@ ensures result == ufb("tailok", ptr(tail), v.total)
+//@ requires len(tail) == tailSize && v.total >= tailSize
+//@ ensures result == tailOK(tail, v.total)
 // every byte received so far is either covered by a validated block or still buffered
 //@ func (v *v2validator) AddChunk [C14 C15]
 //@ noframe
@@ -618,29 +643,39 @@ package rsm
 //@ func (v *v2validator) Validate [C14 C15]
 //@ noframe
 //@ nobounds
-//@ requires !gBlockBad && v.total == gCovered + len(v.block)
+//@ requires !gBlockBad && v.total == gCovered + len(v.block) && gCovered >= 0
 //@ modifies gBlockBad, gCovered
 //@ ensures result ==> !gBlockBad && v.total == gCovered + tailSize
 // ... and it accepts exactly what the writer produces: whenever at least the tail is buffered, the
 // tail's magic number and recorded size are right and no block fails its checksum, the stream is
 // accepted -- in particular the stream of an empty payload, which is nothing but header and tail
-//@ ensures len(v.block) >= tailSize && ufb("tailok", ptr(v.block) + len(v.block) - tailSize, v.total) && !gBlockBad ==> result
+//@ ensures len(v.block) >= tailSize && tailOK(v.block[len(v.block) - tailSize:], v.total) && !gBlockBad ==> result
 //@ loop 1 invariant !gBlockBad && len(block) >= 0 && v.total == gCovered + len(block) + tailSize
 
 // ---------------------------------------------------------------- membership changes are always applied (C07)
 // membership is not part of the user state machine: a committed config-change entry is handed to
 // configChange on every replica and on every replay, whatever the on-disk state machine's index
 //@ ghost var gCCHandled bool
+// every committed config-change entry is decided by the membership object -- whatever the entry's
+// index is relative to the on-disk state machine's (membership is not stored in the user state
+// machine, so nothing may be skipped on replay) -- and raft is told the decision
+//@ iface (n INode) ApplyConfigChange
+//@ extern github.com/lni/dragonboat/v4/raftpb MustUnmarshal
+//@ modifies pointee(m)
 //@ func (s *StateMachine) configChange [C07]
-//@ trusted decodes the config change and applies it to the membership (membership.handleConfigChange is under contract)
+//@ noframe
+//@ nobounds
+//@ requires s.members.wfm() && s.members.disjoint() && s.index < MaxUint64
+//@ modifies gCCHandled, gMemberDecisions
 //@ ghostset gCCHandled := true
+//@ ensures gMemberDecisions == old(gMemberDecisions) + 1
 //@ iface (n INode) ApplyUpdate
 //@ func (s *StateMachine) handleEntry [C07]
 //@ noframe
 //@ nobounds
-//@ requires !gCCHandled && s.sessions != nil && s.sessions.lru != nil && s.node != nil && s.sm != nil && s.index < MaxUint64
+//@ requires !gCCHandled && s.sessions != nil && s.sessions.lru != nil && s.node != nil && s.sm != nil && s.index < MaxUint64 && s.members.wfm() && s.members.disjoint()
 //@ requires s.sessOf(e.ClientID) != nil ==> s.sessOf(e.ClientID).J()
-//@ modifies gCCHandled
+//@ modifies gCCHandled, gMemberDecisions
 //@ ensures e.Type == pb.ConfigChangeEntry && result == nil ==> gCCHandled
 
 // ---------------------------------------------------------------- streamed chunks own their bytes (C14)
